@@ -9,12 +9,24 @@
 (***************************************************************************)
 EXTENDS Integers, Sequences, FiniteSets
 
-VARIABLES map, queue, cap
+VARIABLES
+  \* @type: Int -> Int;
+  map,
+  \* @type: Seq(Int);
+  queue,
+  \* @type: Int;
+  cap
+
+\* the empty map (TLC: equal to <<>>; written as a function so that Apalache can type it)
+\* @type: Int -> Int;
+EmptyMap == [x \in {} |-> 0]
 
 Stored == DOMAIN map
-Range(q) == {q[i] : i \in 1 .. Len(q)}
+\* @type: (Seq(Int)) => Set(Int);
+Range(q) == {q[i] : i \in DOMAIN q}
 
 \* the state after put(k, v), as a record (used by the MC and by the trace spec)
+\* @type: (Int -> Int, Seq(Int), Int, Int, Int) => { map: Int -> Int, queue: Seq(Int) };
 AfterPut(m, q, c, k, v) ==
   LET m1 == [x \in (DOMAIN m) \cup {k} |-> IF x = k THEN v ELSE m[x]]
       q1 == IF k \in DOMAIN m THEN q ELSE Append(q, k)
@@ -27,11 +39,13 @@ Put(k, v) ==
   IN map' = a.map /\ queue' = a.queue /\ UNCHANGED cap
 
 \* result of get(k): <<TRUE, value>> or <<FALSE, 0>>
+\* @type: (Int -> Int, Int) => <<Bool, Int>>;
 GetResult(m, k) == IF k \in DOMAIN m THEN <<TRUE, m[k]>> ELSE <<FALSE, 0>>
 Get(k) == UNCHANGED <<map, queue, cap>>
 
-Clear == map' = <<>> /\ queue' = <<>> /\ UNCHANGED cap
+Clear == map' = EmptyMap /\ queue' = <<>> /\ UNCHANGED cap
 
+\* @type: (Int -> Int) => Int;
 LenOf(m) == Cardinality(DOMAIN m)
 
 ----------------------------------------------------------------------------
